@@ -364,8 +364,18 @@ def smooth_worker(part, job):
                             continue
                         v0_, f0_ = call_mc(vol, lev, spacing, direction)[:2]
                         v1_, f1_ = call_mc(v, lev_v, spacing, direction)[:2]
+                        # the guard's effect on a vertex is 2.2e-16 / |f1 - f0| of the edge: on a fine grid and a field of order 1e-9 the
+                        # smallest difference across a crossed edge reaches 1e-12, so the allowance follows the field (20x the guard's share)
+                        dmin_ = np.inf
+                        vv_ = np.asarray(v, dtype=np.float64) - float(lev_v)
+                        for ax_ in range(3):
+                            a_, b_ = np.moveaxis(vv_, ax_, 0)[:-1], np.moveaxis(vv_, ax_, 0)[1:]
+                            cr_ = (a_ * b_) < 0
+                            if cr_.any():
+                                dmin_ = min(dmin_, float(np.abs(b_ - a_)[cr_].min()))
+                        tol_steps_ = max(1e-4, 20 * 2.2e-16 / dmin_) if np.isfinite(dmin_) and dmin_ > 0 else 1e-4
                         if np.asarray(f0_).shape != np.asarray(f1_).shape or not np.array_equal(np.asarray(f0_), np.asarray(f1_)) \
-                                or not (np.abs(np.asarray(v0_) - np.asarray(v1_)).max() <= 1e-4 * max(spacing)):
+                                or not (np.abs(np.asarray(v0_) - np.asarray(v1_)).max() <= tol_steps_ * max(spacing)):
                             part.fail("magnitude-dependence:%s" % direction, "the mesh of the same field in other units (samples and level times %s): %s"
                                       % (lname[7:], "%d faces instead of %d" % (len(f1_), len(f0_)) if np.asarray(f0_).shape != np.asarray(f1_).shape else
                                          "vertices move by %.3g grid steps" % float(np.abs(np.asarray(v0_) - np.asarray(v1_)).max() / max(spacing))
@@ -859,6 +869,12 @@ def run(ctx):
                         jobs.append(("smooth", ("blobs", nblob, shape, spacing, direction, level, variant)))
                     if level == 0.5:
                         jobs.append(("smooth", ("blobs-nodegenerate", nblob, shape, spacing, direction, level, 0)))
+    # every grid size of an interval (a wrapper that pads, tiles or chunks the volume has nowhere to hide below the bound): two blobs on
+    # grids of n x (n+3) x (n-2) nodes, the physical extent kept at ~12 A so that the surface always fits
+    for n in range(8, 81 if ctx.thorough else 44):
+        shape = (n, n + 3, n - 2)
+        spacing = (round(12.0 / n, 4), round(12.0 / (n + 3), 4), round(12.0 / (n - 2), 4))
+        jobs.append(("smooth", ("blobs", 2, shape, spacing, "descent" if n % 2 else "ascent", 0.5, 0)))
     for radii in ((2.0, 2.0, 2.0), (1.5, 2.5, 2.0)):
         for direction in ("descent", "ascent"):
             jobs.append(("smooth", ("ladder", radii, direction)))
